@@ -9,13 +9,15 @@ from harness import common as C
 from harness import fw
 from harness import c06_gen as G
 from harness import c06_sections as S
+from harness import c06_pairs as PR
+from harness import c06_scope as CS
 from harness import progen
 from harness import stmt_wire as SW
 
 META = {
     "id": "C06",
-    "technique": "Coq proof (escape = _escape_string_literal round-trips through a model of the g++ string-literal lexer for every string without a line end, refuted with a raw line end; the emitter's stitching order is sorted by section kind with one setup and one loop, declared-before-use of file-scope names holds under an explicit guard and is refuted for a function that mentions an ultrasonic helper or a later function; every assignment in the IR of the statement translator targets a variable visible under C++ block scoping, by induction over the translation incl. promotion and both rewriters, refuted for a setup-local introduced by a mixed tuple assignment; the header stitching includes the headers of every library class it instantiates, for every list of device declarations (Lang/Headers.v); the function-selection loop of parse() emits each (function, signature) once, only existing variants and every variant a recorded call resolves to, and no two definitions share name and C++ parameter list when the labels are those of _cpp_type's table (Lang/FnSelect.v)) + extracted-model correspondence with the real _escape_string_literal / _to_c_expr, with g++'s own lexer, with the section structure read back from the real emitted text, of the scoping verdict with g++, of the include list / library objects with the real text for the device declarations of the real IR, and of the selected function variants with Program.functions for the real specialisation tables + the compiler as property oracle: every accepted generated script inside the guard is compiled and linked with g++ against the mock core, every generated printable literal is printed by the firmware and compared with the Python value",
-    "level_text": "Theorems C06_* (coq/Props/C06.v) hold for all strings / all sketches / all programs of Gallina models (coq/Lang/Escape.v: escape and a lexer of one ordinary C++ string literal incl. line splicing; coq/Lang/Sections.v: the emitter's stitching order with defines/uses per top-level item; coq/Lang/Scope.v: C++ block scoping over the IR of coq/Lang/Transl.v, the model of the statement translator that unit C01_stmt ties to parser.py; coq/Lang/Headers.v: servo/LCD flags, library objects and includes as a fold over the top-level device declarations; coq/Lang/FnSelect.v: the selection loop over variants / recorded call signatures / aliases / primary signature and _cpp_type). The models are run against the real functions and against g++ on generated inputs; the C++ type checker is not modelled - g++ itself decides, on every accepted script of a structured generator (devices x helpers x lists x functions x control flow x printable literals) restricted to the guard of the listed findings.",
+    "technique": "Coq proof (escape = _escape_string_literal round-trips through a model of the g++ string-literal lexer for every string without a line end, refuted with a raw line end; the emitter's stitching order is sorted by section kind with one setup and one loop, declared-before-use of file-scope names holds under an explicit guard and is refuted for a function that mentions an ultrasonic helper or a later function; every assignment in the IR of the statement translator targets a variable visible under C++ block scoping, by induction over the translation incl. promotion and both rewriters, refuted for a setup-local introduced by a mixed tuple assignment; the header stitching includes the headers of every library class it instantiates, for every list of device declarations (Lang/Headers.v); the function-selection loop of parse() emits each (function, signature) once, only existing variants and every variant a recorded call resolves to, and no two definitions share name and C++ parameter list when the labels are those of _cpp_type's table (Lang/FnSelect.v); every device-call template of _emit_block keeps its helper locals in a block of its own, so any sequence of device calls in any block is free of redeclaration, and a whole function body is when the script's own declarations are (Lang/EmitScope.v: scope stack of C++ block scoping, LCD glyph arrays numbered by a counter that only grows); the global lines de-duplicated by text define no name twice when each name is always offered with one initialiser, refuted for a Servo bound twice with different limits (Lang/Globals.v)) + extracted-model correspondence with the real _escape_string_literal / _to_c_expr, with g++'s own lexer, with the section structure read back from the real emitted text, of the scoping verdict with g++, of the include list / library objects with the real text for the device declarations of the real IR, of the selected function variants with Program.functions for the real specialisation tables, and of the blocks and declarations of setup / loop / every user function that the emitter model produces for the real IR with those read back from the real text + the compiler as property oracle: the whole statement catalog (every device method with literal and run-time arguments, every statement that makes the transpiler invent a C++ name) twice in ONE block of every kind of block, reduced by ddmin to a minimal failing sequence; every accepted generated script inside the guard is compiled and linked with g++ against the mock core, every generated printable literal is printed by the firmware and compared with the Python value",
+    "level_text": "Theorems C06_* (coq/Props/C06.v) hold for all strings / all sketches / all programs of Gallina models (coq/Lang/Escape.v: escape and a lexer of one ordinary C++ string literal incl. line splicing; coq/Lang/Sections.v: the emitter's stitching order with defines/uses per top-level item; coq/Lang/Scope.v: C++ block scoping over the IR of coq/Lang/Transl.v, the model of the statement translator that unit C01_stmt ties to parser.py; coq/Lang/Headers.v: servo/LCD flags, library objects and includes as a fold over the top-level device declarations; coq/Lang/FnSelect.v: the selection loop over variants / recorded call signatures / aliases / primary signature and _cpp_type; coq/Lang/EmitScope.v: per IR node kind the blocks it opens and the names it declares, written from the branches of _emit_block, and the scope stack that decides 'declared twice in one scope'; coq/Lang/Globals.v: de-duplication of global lines by text). The models are run against the real functions and against g++ on generated inputs; the C++ type checker is not modelled - g++ itself decides, on every accepted script of a structured generator (devices x helpers x lists x functions x control flow x printable literals) restricted to the guard of the listed findings.",
     "level_note": "Trusted: Coq kernel, extraction, OCaml driver, g++ 12 -std=gnu++17 and the mock Arduino core as the definition of 'compiles', harness/c06_sections.py (reads top-level items, defined and used names out of the emitted text), harness/c06_gen.py (script generator and the syntactic guard shapes_of). Theorems are about the models; what ties the whole transpiler to the property is the compiler oracle, a search, not a proof.",
     "design_ref": "DESIGN.md section 4 C06",
 }
@@ -277,7 +279,7 @@ def part_lexer(ctx, dist):
 
 
 # ------------------------------------------------------------------ C. printable literals end to end
-CONTEXTS = ["write", "var", "list", "arg", "fstr", "concat", "aug"]
+CONTEXTS = ["write", "var", "list", "arg", "fstr", "concat", "aug", "ret", "ternary", "cmp", "lcd"]
 
 
 def literal_script(rng, items):
@@ -285,6 +287,8 @@ def literal_script(rng, items):
     pre, body = [], []
     pre.append("def show(t: str):\n    mon.write(t)")
     pre.append("kx = 7")
+    if any(cx == "lcd" for _, _, cx in items):
+        pre.append("from Reduino.Displays import LCD\npanel = LCD(i2c_addr=0x27)")
     for cid, s, cx in items:
         lit = G.py_literal(rng, s)
         body.append(f'mon.write("@@c06case {cid}")')
@@ -302,11 +306,20 @@ def literal_script(rng, items):
             body += [f"sc{cid} = \"<\"", f"sc{cid} = sc{cid} + {lit}", f"mon.write(sc{cid})"]
         elif cx == "aug":
             body += [f"sa{cid} = \"<\"", f"sa{cid} += {lit}", f"mon.write(sa{cid})"]
+        elif cx == "ret":                  # the literal is the return value of a helper
+            pre.append(f"def give{cid}():\n    return {lit}")
+            body.append(f"mon.write(give{cid}())")
+        elif cx == "ternary":              # an arm of a conditional expression
+            body.append(f"mon.write({lit} if kx > 3 else \"no\")")
+        elif cx == "cmp":                  # compared with a variable holding the same value (a second spelling of the literal)
+            body += [f"sq{cid} = {lit}", f"if sq{cid} == {G.py_literal(rng, s)}:", "    mon.write(\"same\")", "else:", "    mon.write(\"differs\")"]
+        elif cx == "lcd":                  # text argument of a display call (compiled and run; the serial line only marks the case)
+            body += [f"panel.line(0, {lit})", f"panel.message({lit}, bottom={lit})", f"panel.progress(1, kx, label={lit})", f"mon.write({lit})"]
     return HEAD + "\n".join(pre) + "\n" + "\n".join(body) + "\nmon.write(\"##end\")\nwhile True:\n    sleep(1000)\n"
 
 
 def expected_line(s, cx):
-    return {"fstr": "7" + s, "concat": "<" + s, "aug": "<" + s}.get(cx, s)
+    return {"fstr": "7" + s, "concat": "<" + s, "aug": "<" + s, "cmp": "same"}.get(cx, s)
 
 
 def part_literals(ctx, dist, strings):
@@ -416,6 +429,21 @@ def boundary_scripts():
     }
     for k, body in helpers.items():
         out.append((head + body + (tail if "while True" not in body else ""), {"boundary: helper " + k: 1}))
+    # device names bound twice (inside the guard of F-C06-rebound-device-globals: Servo / Buzzer with the same limits): twice before
+    # the loop with the same / with other pins, and once before the loop and once more at the top of the loop body
+    dimp = ("from Reduino import target\ntarget(\"COM3\")\nfrom Reduino.Actuators import Servo, Buzzer, Led, RGBLed, DCMotor\n"
+            "from Reduino.Sensors import Button, Potentiometer, Ultrasonic\nfrom Reduino.Displays import LCD\nfrom Reduino.Utils import sleep\n")
+    first = ['led = Led(13)', 'rgb = RGBLed(9, 10, 11)', 'bz = Buzzer(8)', 'm = DCMotor(4, 5, 6)', 'b = Button(2)', 'p = Potentiometer("A0")',
+             'u = Ultrasonic(3, 7)', 'arm = Servo(44, min_angle=10)', 'lcd = LCD(i2c_addr=0x27)']
+    other = ['led = Led(12)', 'rgb = RGBLed(3, 5, 6)', 'bz = Buzzer(7)', 'm = DCMotor(22, 23, 24)', 'b = Button(25)', 'p = Potentiometer("A1")',
+             'u = Ultrasonic(26, 27)', 'arm = Servo(45, min_angle=10)', 'lcd = LCD(i2c_addr=0x3F)']
+    use = ["led.on()", "rgb.on()", "bz.beep()", "m.invert()", "arm.write(20)", "lcd.clear()", "sleep(100)"]
+    loop = "while True:\n" + "".join("    " + u + "\n" for u in use)
+    out.append((dimp + "\n".join(x for pair in zip(first, first) for x in pair) + "\n" + loop, {"boundary: every device name bound twice, same arguments": 1}))
+    out.append((dimp + "\n".join(x for pair in zip(first, other) for x in pair) + "\n" + loop, {"boundary: every device name bound twice, other pins": 1}))
+    hoist = [x for x in first if x.split(" = ")[1].split("(")[0] in ("Led", "RGBLed", "DCMotor", "Button", "Potentiometer", "Ultrasonic", "Servo")]
+    out.append((dimp + "\n".join(first) + "\nwhile True:\n" + "".join("    " + x + "\n" for x in hoist) + "".join("    " + u + "\n" for u in use),
+                {"boundary: hoistable device names bound before the loop AND at the top of the loop body": 1}))
     return out
 
 
@@ -684,6 +712,7 @@ def part_scripts(ctx, dist, samples):
             for h in r["helpers"]:
                 dist["helper:" + h] += 1
     n_eval += check_library_and_functions(ctx, batch, dist, consts)
+    n_eval += check_scopes(ctx, [(src, r, c) for (src, r), c in zip(acc, comp)], dist, consts)
     dist["scripts:compiled"] = sum(1 for c in comp if c["compiled"])
     for k, v in kinds_seen.items():
         dist["items:" + k] = v
@@ -692,6 +721,164 @@ def part_scripts(ctx, dist, samples):
         samples.append({"script": min((s for s, _ in acc), key=len)})
     return n_eval, len(distinct), consts
 
+
+
+# ------------------------------------------------------------------ H. every statement shape, and every pair of them, in ONE block
+def _compile_many(srcs):
+    """-> [(transpile result, compile result or None)]"""
+    _, tr = transpile(srcs)
+    idx = [k for k, r in enumerate(tr) if r["ok"]]
+    comp = dict(zip(idx, fw.run_sketches([{"cpp": tr[k]["cpp"], "compile_only": True} for k in idx])))
+    return [(r, comp.get(k)) for k, r in enumerate(tr)]
+
+
+def part_pairs(ctx, dist, samples):
+    """c06_pairs: the whole statement catalog, twice, in one block of every kind of block (setup, loop, function body, every
+    arm of if/elif/else, for, while, try, except, nested) - every pair of statement shapes and every shape with itself
+    share one C++ scope.  Oracle: g++.  A failing sequence is reduced (ddmin) to a minimal one, which is the replay."""
+    rng = ctx.rng
+    thorough = ctx.tier == "thorough"
+    runs = []
+    for cx in PR.CONTEXTS:
+        runs.append((cx, PR.sequence(rng, cx, 2)))
+    if thorough:
+        for rep in range(6):
+            for cx in PR.CONTEXTS:
+                seq = PR.sequence(rng, cx, 3)
+                rng.shuffle(seq)
+                runs.append((cx, seq[:rng.randint(20, len(seq))]))
+    srcs = [PR.wrap(cx, [l for _, l in seq]) for cx, seq in runs]
+    n_eval = 0
+    todo = []
+    reduced = set()
+    for (cx, seq), src in zip(runs, srcs):
+        sh = G.shapes_of(src)
+        if sh:
+            ctx.disagree("catalog sequence is outside the executable guard (generator bug)", {"context": cx, "shapes": sorted(sh)}, "inside", "outside")
+            continue
+        todo.append((cx, seq, src))
+    res = _compile_many([s for _, _, s in todo])
+    skeletons = []
+    for (cx, seq, src), (r, c) in zip(todo, res):
+        dist["pairs:context:" + cx] += 1
+        dist["pairs:statements in one block"] += len(seq)
+        for lab, _ in seq:
+            dist["pairs:shape:" + lab.split(" ")[0]] += 1
+        if not r["ok"]:
+            # a single catalog statement the transpiler rejects would hide the rest of the sequence: never silently
+            ctx.disagree("catalog sequence rejected by the transpiler (every catalog statement is documented style)", {"context": cx, "exc": r["exc"], "msg": r.get("msg", "")[:300]}, "accepted", "rejected")
+            continue
+        n_eval += len(seq) * (len(seq) - 1) // 2
+        skeletons.append((cx, src, r, c))
+        if c["compiled"]:
+            continue
+        key0 = err_key(c["compile_log"])
+        if key0 in reduced:               # the same error in another kind of block: reported once, reduced once
+            dist["pairs:failing context (same error, not reduced again):" + cx] += 1
+            continue
+        reduced.add(key0)
+
+        def fails(cands, cx=cx, key0=key0):
+            out = _compile_many([PR.wrap(cx, [l for _, l in cand]) for cand in cands])
+            return [bool(r2["ok"] and c2 is not None and not c2["compiled"] and err_key(c2["compile_log"]) == key0) for r2, c2 in out]
+
+        small = PR.ddmin(list(seq), fails)
+        msrc = PR.wrap(cx, [l for _, l in small])
+        (r2, c2), = _compile_many([msrc])
+        errs = re.findall(r"error: .*", (c2 or c)["compile_log"])[:4]
+        ctx.fail("statements of the documented style that compile one by one do not compile when they stand in the same block",
+                 {"script": msrc, "context": cx, "statements": [lab for lab, _ in small], "errors": errs},
+                 "g++ -std=gnu++17 compiles and links", "g++ error", key="same-block:" + key0)
+    if todo:
+        samples.append({"same-block sequence": [lab for lab, _ in todo[0][1]][:12], "context": todo[0][0]})
+    return n_eval, skeletons
+
+
+# ------------------------------------------------------------------ I. one declaration per scope: Lang/EmitScope.v vs the real text vs g++
+def check_scopes(ctx, batch, dist, consts):
+    """batch: [(script, transpile result, g++ result or None)].
+    (a) property oracle on the real text: in no function of the sketch is a name declared twice in one C++ scope
+        (blocks read back by harness/c06_scope.py, the rule decided by the extracted Lang.EmitScope.scan);
+    (b) that verdict against g++ ('redeclaration of' / 'conflicting declaration' / 'redefinition of' inside a function);
+    (c) the emitter model: emit_program on the real IR must give, for setup, loop and every user function, exactly the block
+        structure and declared names read from the real text (declaration-free blocks pruned on both sides)."""
+    if not ctx.exe:
+        return 0
+    n_eval = 0
+    cases, meta = [], []
+    for src, r, comp in batch:
+        try:
+            items = S.read_sketch(r["cpp"], consts, r["functions"])
+            fns = []
+            for it in items:
+                if it["kind"] in ("setup", "loop", "function", "ultra"):
+                    params, toks = CS.read_function(it["ctext"])
+                    fns.append((it["kind"], it["name"], params, toks))
+        except (S.SplitError, CS.ScopeReadError) as e:
+            if comp is None or comp["compiled"]:
+                ctx.disagree(f"emitted text cannot be read back into blocks and declarations: {e}", {"script": src}, "readable", str(e))
+            continue
+        for kind, name, params, toks in fns:
+            cases.append([8, params, CS.wire(toks)])
+            meta.append(("text", src, r, comp, kind, name, toks))
+        ir = r.get("ir") or {}
+        if "error" in ir or not ir:
+            ctx.disagree("the IR contains a node kind the emitter model does not know", {"script": src}, "known node kinds", ir.get("error"))
+            continue
+        cases.append([9, ir["lcds"], ir["buttons"], ir["setup"], ir["loop"], [[ps, ns] for _, ps, ns in ir["fns"]]])
+        meta.append(("ir", src, r, comp, fns, ir, None))
+    outs = ctx.model(cases) if cases else []
+    bad_by_src = {}
+    for m, o in zip(meta, outs):
+        if o[0] != 0:
+            ctx.disagree("model could not decode the scope case", {"script": m[1]}, o, None)
+            continue
+        if m[0] == "text":
+            _, src, r, comp, kind, name, toks = m
+            n_eval += 1
+            dist["scopes:function bodies read"] += 1
+            dist["scopes:declarations read"] += sum(1 for t in toks if t[0] == "decl")
+            if o[1] != 1:
+                bad_by_src.setdefault(src, []).append((name, C.wstr(o[2])))
+        else:
+            _, src, r, comp, fns, ir, _ = m
+            real = {(k, nm): (ps, CS.prune(tk)) for k, nm, ps, tk in fns}
+            bodies = [("setup", "setup", o[1]), ("loop", "loop", o[2])] + [("function", nm, b) for (nm, _, _), b in zip(ir["fns"], o[3])]
+            for kind, name, b in bodies:
+                n_eval += 1
+                mt = CS.prune(CS.unwire(b[0], C.wstr))
+                rp = real.get((kind, name))
+                if rp is None:
+                    ctx.disagree("a function of the IR is missing in the emitted text", {"script": src, "function": name}, name, None)
+                    continue
+                dist["scopes:model vs text bodies"] += 1
+                if mt != rp[1]:
+                    k = next((i for i, (a, b2) in enumerate(zip(mt, rp[1])) if a != b2), min(len(mt), len(rp[1])))
+                    ctx.disagree("blocks and declarations of a function body: emitter model (Lang/EmitScope.v on the real IR) vs the emitted text",
+                                 {"script": src, "function": name, "first difference at token": k},
+                                 [list(t) for t in mt[max(0, k - 3):k + 4]], [list(t) for t in rp[1][max(0, k - 3):k + 4]])
+                if b[2] == 1 and b[1] != 1:
+                    ctx.disagree("extracted model contradicts theorem C06_emit_no_redeclaration_partial (extraction or wire bug)", {"script": src, "function": name}, 1, b[1])
+                if b[2] != 1:
+                    dist["scopes:user declarations of a body not redeclaration-free (outside the theorem's guard)"] += 1
+    # (b) the verdict against g++
+    for src, r, comp in batch:
+        if comp is None:
+            continue
+        n_eval += 1
+        gpp = bool(re.search(r"error: (redeclaration of|conflicting declaration|redefinition of ‘[^’(]*’$)", comp["compile_log"], re.M))
+        mine = src in bad_by_src
+        if mine and not comp["compiled"]:
+            name, dup = bad_by_src[src][0]
+            ctx.fail("the emitted sketch declares a name twice in one C++ scope",
+                     {"script": src, "function": name, "name": dup, "errors": re.findall(r"error: .*", comp["compile_log"])[:3]},
+                     "every identifier declared once per scope", f"{dup} declared twice in {name}()",
+                     key="redeclared-in-scope:" + re.sub(r"_\d+$", "_<k>", dup))
+        if mine and comp["compiled"]:
+            ctx.disagree("scope model finds a name declared twice in one scope, g++ accepts the sketch", {"script": src, "redeclared": bad_by_src[src]}, "g++ error", "compiles")
+        if gpp and not mine:
+            ctx.disagree("g++ reports a redeclaration inside a function that the scope model does not see", {"script": src, "errors": re.findall(r"error: .*", comp["compile_log"])[:3]}, "redeclaration", "well scoped")
+    return n_eval
 
 
 # ------------------------------------------------------------------ F. user variables: the scoping model vs g++
@@ -817,13 +1004,24 @@ def replay_finding(ctx, f, consts, dist):
 
 
 def run(ctx: C.Ctx):
+    import time
     dist = Counter()
     samples = []
-    n1, nt1, strings = part_escape(ctx, dist, samples)
-    n2 = part_lexer(ctx, dist)
-    n3 = part_literals(ctx, dist, strings)
-    n4, nt4, consts = part_scripts(ctx, dist, samples)
-    n5 = part_scope(ctx, dist)
+    timing = {}
+    t0 = time.time()
+
+    def lap(name):
+        nonlocal t0
+        timing[name] = round(time.time() - t0, 1)
+        t0 = time.time()
+
+    n1, nt1, strings = part_escape(ctx, dist, samples); lap("A escape")
+    n2 = part_lexer(ctx, dist); lap("B lexer")
+    n3 = part_literals(ctx, dist, strings); lap("C literals")
+    n4, nt4, consts = part_scripts(ctx, dist, samples); lap("D scripts (+G headers/functions, I scopes)")
+    n5 = part_scope(ctx, dist); lap("F user-variable scoping")
+    n6, pair_batch = part_pairs(ctx, dist, samples); lap("H same-block sequences")
+    n6 += check_scopes(ctx, [(src, r, c) for _, src, r, c in pair_batch], dist, consts); lap("I scopes of the sequences")
 
     for f in local_findings(ctx):
         if f.get("kind") == "fixed":
@@ -836,17 +1034,20 @@ def run(ctx: C.Ctx):
             ctx.disagree("listed finding's witness is inside the executable guard", {"script": w}, "outside", "inside")
 
     ctx.coverage.update({
-        "evaluations": n1 + n2 + n3 + n4 + n5,
+        "evaluations": n1 + n2 + n3 + n4 + n5 + n6,
         "distinct_nontrivial": nt1 + nt4,
         "rule": "A: escape on special strings + all 1/2-character strings over a 12-symbol boundary alphabet + all 3-character strings over 5 symbols + seeded printable strings (ASCII incl. quote/backslash/?, Unicode) + strings with control characters (model vs _escape_string_literal; the real output lexed by the model lexer; the three escape call sites of _to_c_expr). "
                 "B: C++ literal bodies built from plain characters, simple/octal/hex escapes, trigraph-like sequences, line splices, non-ASCII: model lexer vs the bytes g++ stores. "
-                "C: printable strings in 7 script contexts (write, variable, list element, function argument, f-string, concatenation, +=) transpiled, compiled, run; the printed line must be the Python value. "
-                "D: 6 edge scripts + 28 boundary scripts (every combination and declaration order of Servo / parallel LCD / I2C LCD incl. a Servo hoisted from the loop head and two objects per class; every helper shape: parameter re-bound to float called with int and float in both orders, two real overloads, calls through annotated wrappers, one signature twice, never called, called from a function only) + seeded structured scripts (c06_gen.gen_script: device kinds forced in rotation before the loop / hoistable kinds at the top of the loop body; every 4th script with 1-3 instances per device kind in shuffled order, both LCD interfaces / only one of them in rotation, a hoistable kind both before and in the loop; every 4th script with helpers whose un-annotated parameters are called with several argument types (13 shapes in rotation: re-bound parameters, overloads, recursion, list parameter / result, global statement, empty body) at top level, in the loop, in nested blocks and inside other functions; devices first / alternating with globals / below the functions that drive them; pins as literals or global variables; globals, lists, user functions, if/elif/else, for, while, try, tuple assignment, f-strings, device calls with literal and run-time arguments) filtered by the syntactic guard shapes_of; every accepted one is compiled+linked by g++ (oracle) and its top-level structure is read back and compared with the model's stitch order / declared-before-use verdict; on each of them two more property clauses are evaluated on the real artefacts (every instantiated library class has its own header included above the object; no (name, parameter types) is defined twice - in Program.functions and in the text) and Lang/Headers.v / Lang/FnSelect.v are run on the real device declarations / specialisation tables and compared with the real include list, library objects and Program.functions. "
+                "C: printable strings in 11 script contexts (write, variable, list element, function argument, f-string, concatenation, +=, return value of a helper, arm of a conditional expression, comparison with a second spelling of the literal, text / label arguments of LCD calls) transpiled, compiled, run; the printed line must be the Python value. "
+                "D: 6 edge scripts + 31 boundary scripts (every device name bound twice with the same arguments / with other pins, hoistable kinds bound before the loop and again at its top; every combination and declaration order of Servo / parallel LCD / I2C LCD incl. a Servo hoisted from the loop head and two objects per class; every helper shape: parameter re-bound to float called with int and float in both orders, two real overloads, calls through annotated wrappers, one signature twice, never called, called from a function only) + seeded structured scripts (c06_gen.gen_script: device kinds forced in rotation before the loop / hoistable kinds at the top of the loop body; every 4th script with 1-3 instances per device kind in shuffled order, both LCD interfaces / only one of them in rotation, a hoistable kind both before and in the loop; every 4th script with helpers whose un-annotated parameters are called with several argument types (13 shapes in rotation: re-bound parameters, overloads, recursion, list parameter / result, global statement, empty body) at top level, in the loop, in nested blocks and inside other functions; devices first / alternating with globals / below the functions that drive them; pins as literals or global variables; globals, lists, user functions, if/elif/else, for, while, try, tuple assignment, f-strings, device calls with literal and run-time arguments) filtered by the syntactic guard shapes_of; every accepted one is compiled+linked by g++ (oracle) and its top-level structure is read back and compared with the model's stitch order / declared-before-use verdict; on each of them two more property clauses are evaluated on the real artefacts (every instantiated library class has its own header included above the object; no (name, parameter types) is defined twice - in Program.functions and in the text) and Lang/Headers.v / Lang/FnSelect.v are run on the real device declarations / specialisation tables and compared with the real include list, library objects and Program.functions. "
+                "H: harness/c06_pairs.py - a catalog of ~130 statement shapes (every method of Led, RGBLed, Buzzer, Servo, DCMotor, LCD (parallel with backlight pin and I2C), SerialMonitor, Core, sensors with all-literal and with run-time arguments, optional arguments present / absent; tuple assignments all-new / swap / rotate, list literal / comprehension / append / remove / len / index / setitem, calls, for / while / if / elif / try with names promoted out of them, augmented assignments, in functions the re-assignment of the parameter) put TWICE (second copy shuffled, fresh Python names) into ONE block of each of 13 kinds (setup, loop, function body, if / elif / else arm, for, while, try, except, if inside a function, for inside if, loop body below devices declared at its top): every pair of shapes and every shape with itself share one C++ scope; g++ is the oracle, a failing sequence is reduced by ddmin and the minimal script is the replay (evaluations count the pairs); thorough: 6 more rounds per context with three shuffled copies cut at a random length. "
+                "I: every compiled script of D and H: each function of the real text is read back into blocks / header declarations / declarations (harness/c06_scope.py), the extracted scope stack decides whether a name is declared twice in one scope (oracle, cross-checked with g++'s 'redeclaration' errors in both directions), and the extracted emitter model run on the real IR (node kinds + the attributes that decide the template: literal vs run-time durations, empty pattern, known melody / LCD / button) must reproduce blocks and declared names of setup, loop and every user function exactly (declaration-free blocks pruned on both sides). "
                 "F: statement-fragment programs (harness/progen.py feature sets + 34 scoping boundary templates: all-new / mixed / all-old tuple assignments at every level, names first bound in branches and loops, for variables re-bound after the loop) through the extracted Lang.Transl + Lang.Scope and through the real transpiler + g++: the theorem's conclusion is re-checked on the extracted model, and a target the model finds invisible must make g++ fail with 'not declared'. "
                 "distinct non-trivial = strings that need escaping + distinct (section-kind multiset, helper set) signatures of compiled scripts",
         "samples": samples[:4],
+        "timing_s": timing,
         "distribution": {k: v for k, v in sorted(dist.items(), key=lambda kv: str(kv[0]))},
-        "guard": "strings: str.isprintable() (theorem guard: no LF/CR). scripts: c06_gen.shapes_of(script) is empty - no user function that calls measure_distance() or lcd.animate(), no call of a function defined later, no '**', no 'except <Name>', no '+' of two string literals, no C++ keyword / Arduino core name as a Python identifier, no top-level tuple assignment mixing new and old names, no for variable mentioned after its loop, no for over anything but range(...), no un-annotated parameter re-bound to a string-valued expression, no string / float literal passed to an un-annotated parameter outside an assignment or return value, no function above an RGBLed whose on/off/blink/toggle it calls; plus generator invariants: type-correct Python, one type class per variable name, list.append/remove arguments of the element type, a helper with two real overloads has one numeric and one String overload and is called only as the right-hand side of an assignment, a helper whose un-annotated parameter is used as a list is called once in an assignment. Function theorem C06_fn_no_redefinition_partial: all labels in _cpp_type's table. Scoping theorem: setup() has no top-level local declaration (for loop()), targets of augmented assignments not checked",
+        "guard": "strings: str.isprintable() (theorem guard: no LF/CR). scripts: c06_gen.shapes_of(script) is empty - no user function that calls measure_distance() or lcd.animate(), no call of a function defined later, no '**', no 'except <Name>', no '+' of two string literals, no C++ keyword / Arduino core name as a Python identifier, no top-level tuple assignment mixing new and old names, no for variable mentioned after its loop, no for over anything but range(...), no un-annotated parameter re-bound to a string-valued expression, no string / float literal passed to an un-annotated parameter outside an assignment or return value, no function above an RGBLed whose on/off/blink/toggle it calls, no Servo / Buzzer name bound twice with different arguments besides the pin; plus generator invariants: type-correct Python, one type class per variable name, list.append/remove arguments of the element type, a helper with two real overloads has one numeric and one String overload and is called only as the right-hand side of an assignment, a helper whose un-annotated parameter is used as a list is called once in an assignment. Function theorem C06_fn_no_redefinition_partial: all labels in _cpp_type's table. Redeclaration theorem C06_emit_no_redeclaration_partial: the declarations the script itself causes (locals, for variables, catch targets, parameters, button polls) are free of redeclaration (the parser's bookkeeping; checked by g++ and the scope oracle, not proved). Globals theorem: every name always offered with the same initialiser. Scoping theorem: setup() has no top-level local declaration (for loop()), targets of augmented assignments not checked",
         "unmodelled": ["the C++ type checker (template deduction in the list helpers, String overloads, implicit conversions): decided by g++ only",
                        "AVR specifics: <cstring> in the len helper, 16-bit int, PROGMEM; the mock is a hosted g++ 12 with the mock core",
                        "universal character names, GNU escapes, numeric escapes > 255, -trigraphs / -std=c++NN modes (the lexer model answers None)",
@@ -854,10 +1055,13 @@ def run(ctx: C.Ctx):
                        "Lang/FnSelect.v models the selection loop and _cpp_type, not how _parse_function / _infer_expr_type fill the tables (variants, recorded signatures, aliases are read from the real run); overload resolution at the call sites is g++'s",
                        "scripts rejected by the transpiler (not the property's business); lines silently dropped by the parser (C07)",
                        "which names an item defines/uses is read from the emitted text by harness/c06_sections.py, not by a C++ parser",
+                       "Lang/EmitScope.v models which names each node kind declares in which block, not the statements between them; user names are assumed not to start with __redu_ (rendering of the four name classes is then injective); LCD helper snippets and list helpers are fixed text compiled by g++ only; lambdas inside expressions (list comprehensions) are skipped by the reader",
+                       "Lang/Globals.v is a model of the de-duplication rule only (no correspondence run: the lines emit() offers are not observable without a hook); its tie is the replayed witness and the g++ oracle on the boundary scripts with re-bound device names",
                        "scoping theorem: expression reads, redeclaration within one block, the __tmp_assign_k temporaries, user functions, lists and devices are outside Lang/Transl.v; Transl itself is tied to parser.py by unit C01_stmt (IR equality on generated programs), not re-run here"],
         "trusted_base": C.COMMON_TRUSTED + ["g++ 12 -std=gnu++17 -O0 and mock/ (Arduino.h, Servo.h, LiquidCrystal*.h, Wire.h, mock_core.cpp) as the definition of 'compiles against the Arduino core'",
                                             "harness/c06_sections.py (top-level item splitter, defined/used names), harness/c06_gen.py (generator; shapes_of = executable guard)",
-                                            "harness/impl/c06_impl.py (calls _escape_string_literal, _to_c_expr, parse, emit; exports the emitter's snippet constants, the device declarations of the IR, and - through a wrapper around parser._parse_function that keeps a reference to the ctx dict - the specialisation tables parse() selects from)",
+                                            "harness/c06_scope.py (reads blocks, header declarations and declarations of one function out of the emitted text; cross-checked against g++ on every sketch), harness/c06_pairs.py (statement catalog, block contexts, ddmin)",
+                                            "harness/impl/c06_impl.py (calls _escape_string_literal, _to_c_expr, parse, emit; exports the emitter's snippet constants, the device declarations of the IR, the IR in the node encoding of Lang/EmitScope.v (fail-closed on an unknown node kind), and - through a wrapper around parser._parse_function that keeps a reference to the ctx dict - the specialisation tables parse() selects from)",
                                             "mock/__MockLcdBase.h: the shared base of the two mock LCD classes lives in its own header, so that LiquidCrystal / LiquidCrystal_I2C are visible only when their own header is included"],
     })
     ctx.assumptions += ["source and execution character set UTF-8; g++ in a gnu++ mode (trigraphs off), as the Arduino cores and PlatformIO build",
